@@ -101,7 +101,7 @@ void finish_op(World& W, int wi)
     FlushRec& f = W.flushes[x.pending_flush];
     f.returned = true;
     x.has_logged = true;
-    if (is_prop("C06") || is_prop("C10") || is_prop("C03")) check_flush_returned(W, f);
+    if (is_prop("C06") || is_prop("C10") || is_prop("C03") || is_prop("C17")) check_flush_returned(W, f);
   }
   else if (x.pending == OpKind::InitBt || x.pending == OpKind::FlushBt)
   {
@@ -142,6 +142,10 @@ void check_flush_returned(World& W, FlushRec& f)
   {
     Stmt const& s = W.stmts[si];
     if (!s.accepted || s.faulty) continue;
+    // C17: statements logged through a logger whose removal has been requested are the delivery oracle's business (the sinks
+    // of an invalidated logger are no longer flushed by the backend; they are closed when the logger goes); what is asked here
+    // is that the sinks of the SURVIVING loggers keep working while a removal is pending
+    if (is_prop("C17") && !W.loggers[s.logger].valid) continue;
     for (int sk : W.loggers[s.logger].sinks)
     {
       // a statement that the sink's own level filter / filters reject (changed at a drained point) is not owed to that sink
